@@ -287,6 +287,11 @@ def order(ctx):
     r = F(ctx, W + ".read_array")
     g = cfg_of(r)
     t = [n for n in nodes_of_type(r, ast.If) if unparse(n.test) == "self.order == 'F'"]
+    if not t:
+        alt = [n for n in nodes_of_type(r, ast.If) if "self.order" in unparse(n.test)]
+        if alt:
+            ctx.bad(alt[0], "the reader rebuilds the Fortran layout under `%s`, not under `self.order == 'F'`: C- and F-ordered arrays come back transposed" % unparse(alt[0].test), key=NP + "::NumpyArrayWrapper.read_array::order branch")
+            return
     ctx.need(t, "reader order branch not found")
     from ..core import subseq
     def touching(stmts):
